@@ -7,6 +7,7 @@ import (
 	"fmt"
 	"github.com/form3tech-oss/f1/v2/internal/trigger/api"
 	"github.com/form3tech-oss/f1/v2/pkg/f1"
+	"os"
 	"sort"
 	"strconv"
 	"strings"
@@ -272,6 +273,7 @@ func TestC04Runs(t *testing.T) {
 	for rep := 0; rep < kit.N(2, 12); rep++ {
 		fileHandles(o, r, dir, rep)
 		fileUsers(o, r, dir, rep)
+		fileUsersThenRate(o, r, dir, rep)
 	}
 	n := kit.N(12, 90)
 	for i := 0; i < n; i++ {
@@ -414,6 +416,58 @@ func fileUsers(o *kit.Out, r *kit.Rand, dir string, idx int) {
 	}
 	o.Count("mode", "file of users stages")
 	o.Case("c04_ok", []string{kit.I(ob.hwm.Load()), kit.I(maxc), kit.B(ob.shared.Load()), "T"}, "T", "run", "file", "users-stages", "nt")
+}
+
+// A users stage with its own concurrency (above or below the limits') followed by a rate stage:
+// the users stage waits for its users, so the rate stage runs alone - with exactly the limits'
+// concurrency: never more iterations executing than that, and, saturated, all of them.
+func fileUsersThenRate(o *kit.Out, r *kit.Rand, dir string, idx int) {
+	lim := int(r.Range(2, 5))
+	users := lim + int(r.Range(2, 4))
+	if r.Bool() {
+		users = int(r.Range(1, int64(lim-1)))
+	}
+	var mu sync.Mutex
+	inflight := map[string]int{}
+	hwm := map[string]int{}
+	scenario := func(*f1testing.T) f1testing.RunFn {
+		return func(*f1testing.T) {
+			st := os.Getenv("VERIF_C04_STAGE")
+			mu.Lock()
+			inflight[st]++
+			hwm[st] = max(hwm[st], inflight[st])
+			mu.Unlock()
+			time.Sleep(40 * time.Millisecond)
+			mu.Lock()
+			inflight[st]--
+			mu.Unlock()
+		}
+	}
+	yaml := "scenario: verifscenario\ndefault:\n  jitter: 0\n  distribution: none\n" +
+		"limits:\n  max-duration: 3s\n  concurrency: " + strconv.Itoa(lim) + "\n  max-iterations: 0\n  ignore-dropped: true\nstages:\n" +
+		"  - duration: 90ms\n    mode: users\n    concurrency: " + strconv.Itoa(users) + "\n    parameters:\n      VERIF_C04_STAGE: \"users\"\n" +
+		"  - duration: 200ms\n    mode: constant\n    rate: " + strconv.Itoa(4*lim) + "/10ms\n    parameters:\n      VERIF_C04_STAGE: \"rate\"\n"
+	file := dir + "/c04ur_" + strconv.Itoa(idx) + ".yaml"
+	_ = writeFile(file, yaml)
+	out, hung, dump := runkit.DoTimeout(runkit.Config{Mode: "file", FileArg: file, Scenario: scenario, Ctx: context.Background(),
+		Opts: options.RunOptions{}}, 60*time.Second)
+	if hung {
+		o.Fail("c04-run-hung", "file run did not return: "+dump[:min(len(dump), 2000)])
+		return
+	}
+	if out.Err != nil {
+		o.Fail("c04-run-error", "file run failed: "+out.Err.Error())
+		return
+	}
+	mu.Lock()
+	hu, hr := hwm["users"], hwm["rate"]
+	mu.Unlock()
+	if hr != lim {
+		o.Fail("rate-stage-after-users-stage-concurrency", fmt.Sprintf("config file with limits.concurrency %d: a users stage of concurrency %d followed by a saturated constant stage (%d/10ms, iterations of 40ms): at most %d iterations were executing at once during the constant stage (%d expected)", lim, users, 4*lim, hr, lim))
+	}
+	o.Count("mode", "file: users stage then rate stage")
+	o.Case("c04_ok", []string{kit.I(hr), kit.I(lim), "F", kit.B(hr == lim)}, "T", "run", "file", "users-then-rate", "nt")
+	o.Case("c04_ok", []string{kit.I(hu), kit.I(users), "F", "T"}, "T", "run", "file", "users-then-rate")
 }
 
 // ---------------------------------------------------------------- C03: whole runs ended by the limit, all modes and file stages
